@@ -39,7 +39,7 @@ type Config struct {
 	ChownUID    bool                  // subprocess engine only (needs a root gateway)
 	ChownGID    bool
 	AsRoot      bool     // subprocess engine only: do not drop privileges
-	HookSock    string   // subprocess engine only: VERIF_HOOK_SOCK
+	HookDir     string   // subprocess engine only: VERIF_HOOK_DIR (crash injection through verifhook, build tag verif)
 	ExtraArgs   []string // subprocess engine only: extra global flags
 	Backend     string   // subprocess engine only: "" = posix, "s3" = the S3 proxy backend
 	BackendArgs []string // subprocess engine only: arguments of the non-posix backend
